@@ -71,6 +71,12 @@ func (p *propC12) Gen(idx int) *Scenario {
 	if r.Chance(1, 10) {
 		ref |= 0x1F // start right below a rollover
 	}
+	switch r.Intn(12) {
+	case 0:
+		ref = 0xFFFFFFFE - uint32(r.Intn(90)) // top of the 32-bit range: rollovers carry past 2^32
+	case 1:
+		ref = 0x80000000 - uint32(r.Intn(64)) + uint32(r.Intn(128)) // around the sign bit
+	}
 	mkDef := func(local byte, gl uint16, withTS, withLocal bool) *DefOp {
 		d := &DefOp{Local: local, Arch: g.arch(), Global: gl}
 		if !prof.Known(gl) {
